@@ -276,8 +276,9 @@ def explore_subtree(unit_name, fn, root, tier, seed, bound=None, res=None, budge
     stack = [tuple(root)]
     t_end = None if budget is None else time.time() + budget
     nex = 0
+    t_chunk = time.time() + 4.0
     while stack:
-        if max_exec is not None and nex >= max_exec:
+        if max_exec is not None and (nex >= max_exec or (nex and time.time() > t_chunk)):
             res.leftover = stack
             break
         nex += 1
@@ -304,7 +305,10 @@ def expand_frontier(unit_name, fn, tier, seed, bound, target):
     res = Result()
     frontier = deque([()])
     roots = []
+    t0 = time.time()
     while frontier and len(frontier) + len(roots) < target:
+        if time.time() - t0 > 1.0 and len(frontier) > 1:
+            break  # heavy executions: hand the subtrees to the workers now
         prefix = frontier.popleft()
         ctx = run_once(unit_name, fn, prefix, tier, seed)
         res.absorb_ctx(ctx, keep_sample=len(res.samples) < 3)
